@@ -144,6 +144,11 @@ def iter_files(
     for root_str, dirs, files in os.walk(directory):
         root = Path(root_str)
         _LOGGER.debug("currently walking in '%s'", root)
+        # The directory in which the walk starts is the project itself. Its own
+        # name depends on how the root was spelt ('.', 'subprojects',
+        # '/abs/subprojects') and must not turn the top-level directories into
+        # Meson subprojects.
+        is_top = root == directory
 
         # Don't walk ignored directories
         for dir_ in list(dirs):
@@ -152,7 +157,7 @@ def iter_files(
                 the_dir,
                 subset_files=subset_files,
                 include_submodules=include_submodules,
-                include_meson_subprojects=include_meson_subprojects,
+                include_meson_subprojects=include_meson_subprojects or is_top,
                 include_reuse_tomls=include_reuse_tomls,
                 vcs_strategy=vcs_strategy,
             ):
